@@ -244,7 +244,9 @@ class InputDataStorage:
                 for f in range(len(current_sample)):
                     fname = current_sample[f]
                     if names:
-                        readable_name = sample['labels'][f]
+                        # a label is used as a read group name: a YAML scalar that is not a string (labels: [1, 2])
+                        # is grouped by its printed value
+                        readable_name = str(sample['labels'][f])
                     else:
                         readable_name = os.path.splitext(os.path.basename(fname))[0]
                     if fname in readable_names_dict[current_sample_name]:
